@@ -1,7 +1,8 @@
 """C15 — Loading a package is deterministic.
 
 Implementation driven (REAL code, in subprocesses started with different PYTHONHASHSEED values and
-fed key-permuted but equal documents and differently ordered file creation):
+fed key-permuted but equal documents and differently ordered file creation; stage-level variables of the package
+and the loop of FlowIRConcrete.instance() that resolves them: see c15_stagevars.py):
   * FlowIRExperimentConfiguration.__init__ / .parametrize with user variable files ("vars" cases),
   * ExperimentPackage.packageFromLocation + Experiment.experimentFromPackage + validateExperiment on FlowIR
     and DSL 2 packages written to a scratch directory ("pkg" cases; names, edges, environments, resolved
@@ -37,6 +38,7 @@ import tempfile
 import common
 from common import clist, cstr, cpair, cjv, copt
 import c15_reuse as R
+import c15_stagevars as SVH
 
 PROP = 'C15'
 COQ_DIR = 'Det'
@@ -72,6 +74,11 @@ ASSUMPTIONS = [
     'the pristine per-platform stage variables are taken from a load of the package without variable files; the '
     'DSL 2.0 front-end (entrypoint substitution at construction, open finding F15c) is outside Det.Reparam and '
     'compared between processes only; CWL packages are not generated (need cwltool)',
+    'stage variables of FlowIRConcrete.instance() (Det.StageVars): FlowIR.interpolate is V.Conf.Model.interp_string '
+    '(C04: one left-to-right pass, no array indices, no dotted names, no literal %); values are str/int; the order of '
+    'the visits is an oracle (the correspondence evaluates the ascending and the descending order of the stages the '
+    'implementation visited); the later loops of instance() (component variables, blueprints, environments) are not '
+    'modelled and are compared between processes only',
 ]
 HEADER = 'Require Import V.Lib.JTree V.Det.Model.\nOpen Scope string_scope.'
 SEEDS = ['0', '1', '2', '3', 'random', '4']
@@ -724,6 +731,8 @@ def check_pkgs(ctx, cases, parsed, ref_terms):
             ctx.count('pkg:dsl_replicate_family:%s' % ('loaded' if ok else 'rejected:' + dump['error']))
             if ok:
                 ctx.count('pkg:dsl_replicate_family:replicas', sum(1 for n in dump['names'] if n[-1:].isdigit()))
+        if case.get('family') == 'stagevars':
+            SVH.check_pkg(ctx, case, dump, short_case)
         if not ok:
             continue
         ctx.count('pkg:components', ncomp)
@@ -1963,6 +1972,10 @@ def static_scan(ctx):
 
 
 # ------------------------------------------------------------------ run / replay
+def stagevars_inprocess(ctx):
+    SVH.inprocess(ctx, corpus=[(c['doc_stagevars'], c.get('platform')) for c in corpus_cases() if c['kind'] == 'stagevars'])
+
+
 def corpus_cases():
     out = []
     if os.path.isdir(CORPUS):
@@ -2077,7 +2090,14 @@ def run(ctx):
                 'variable files / platform, then package / package flavour of the instance / instance flavour loaded; '
                 'non-trivial = both flavours of a stage file present and the flavours serve different values.  Every child '
                 'process lists directories in its own order (file system, ascending, descending, rotated, even-odd, '
-                'odd-even reversed)')
+                'odd-even reversed).  stagevars pkg = FlowIR package with 2-4 stages whose STAGE-level variables '
+                '(workdir / label / out / deep) reference pool variables (base, root, tag, site) that are global and '
+                'overridden at stage level by some stages and by a platform; mostly one stage references a variable it '
+                'does not define but another stage does; loaded replicated in the 6 processes and compared with the '
+                'recomputed stage variables.  stagevars case = such a document (also unknown references, integers, a '
+                'stage without components, platform plat) through the real FlowIRConcrete.instance() vs '
+                'Det.StageVars.walk and vs the same document without the variables of the other stages; non-trivial = '
+                'a stage references a variable only other stages define at stage level and >= 2 stages are visited')
     quick = ctx.tier == 'quick'
     vars_cases = [c for c in corpus_cases() if c['kind'] == 'vars']
     pkg_cases = [c for c in corpus_cases() if c['kind'] == 'pkg']
@@ -2099,6 +2119,9 @@ def run(ctx):
     # DSL 2.0 packages whose steps consume replicating, aggregating and plain components at once (replicated loads)
     for i in range(4 if quick else 30):
         pkg_cases.append(gen_dsl_replica_pkg(rng, sure=(i % 2 == 0)))
+    # packages with STAGE-level variables that reference variables other stages override (replicated loads)
+    for _ in range(6 if quick else 40):
+        pkg_cases.append(SVH.gen_stagevars_pkg(rng))
     # ONE configuration object re-parametrized (every package kind), DOSINI instances with both flavours of stage files
     for c in corpus_cases():
         if c['kind'] in ('cfg', 'inst'):
@@ -2111,7 +2134,7 @@ def run(ctx):
         pkg_cases.append(R.gen_inst_case(rng, gen_vars_case))
     import time
     for stage in (static_scan, lambda c: explore(c, vars_cases, pkg_cases), inprocess, s5_inprocess, s7_inprocess,
-                  naming_inprocess, replicate_inprocess):
+                  naming_inprocess, replicate_inprocess, stagevars_inprocess):
         t0 = time.time()
         stage(ctx)
         if os.environ.get('C15_TIMING'):
@@ -2134,6 +2157,14 @@ def replay(ctx, path):
         replicate_inprocess(ctx, [c['doc']])
         for f in ctx.failures:
             print('REPRODUCED: %s: %s' % (f['what'], json.dumps(f['case'])[:600]))
+        for f in ctx.disagreements:
+            print('DISAGREEMENT: %s' % (json.dumps(f, default=str)[:600],))
+        return 1 if (ctx.failures or ctx.disagreements) else 0
+    if isinstance(c, dict) and c.get('kind') == 'stagevars':
+        c = _from_corpus(c)
+        SVH.inprocess(ctx, only=[(c['doc_stagevars'], c.get('platform'))])
+        for f in ctx.failures:
+            print('REPRODUCED: %s: %s' % (f['what'], json.dumps(f['case'], default=str)[:600]))
         for f in ctx.disagreements:
             print('DISAGREEMENT: %s' % (json.dumps(f, default=str)[:600],))
         return 1 if (ctx.failures or ctx.disagreements) else 0
